@@ -14,8 +14,12 @@ fn main() {
     std::panic::set_hook(Box::new(|_| {}));
     for line in read_cases() {
         let m = kv(&line);
+        USE_DESCENT_STACK.store(m.get("descent").map(String::as_str) == Some("1"), std::sync::atomic::Ordering::Relaxed);
         let g = build_graph(m.get("g").map(String::as_str).unwrap_or("-"));
-        install(parse_programs(m.get("r").map(String::as_str).unwrap_or("-")), m.get("omit").map(String::as_str).unwrap_or("-"));
+        // rule 7 is a pure reader (node record, node attachment, edge existence and edge attachments): a warm tick made of
+        // it leaves the state untouched but exercises every read-mark of the scheduler (history-independence oracle below)
+        let spec = format!("{};7:rn.s,ra.s,he.20,he.21,he.22,he.23,he.30,he.31,he.40,re.20,re.21,re.30", m.get("r").map(String::as_str).unwrap_or("-"));
+        install(parse_programs(spec.trim_start_matches("-;")), m.get("omit").map(String::as_str).unwrap_or("-"));
         let enq = parse_enq(m.get("enq").map(String::as_str).unwrap_or("-"));
         let seed: u64 = m.get("seed").and_then(|s| s.parse().ok()).unwrap_or(1);
         let perms: usize = m.get("perms").and_then(|s| s.parse().ok()).unwrap_or(0);
@@ -105,8 +109,16 @@ fn main() {
         }
         // history independence: the same tick on a long-lived engine that already committed a tick (first the read-heavy
         // prefix of this very candidate set, then the set itself) vs a fresh engine on the same pre-tick state
-        for warm in [&enq[..enq.len() / 2], &enq[..]] {
-            if warm.is_empty() {
+        let mut readers: Vec<Req> = Vec::new();
+        for w in &g.warps {
+            if let Some(store) = g.state.store(&wid(*w)) {
+                let mut ids: Vec<u64> = store.iter_nodes().map(|(id, _)| u64::from_be_bytes(id.0[24..].try_into().unwrap())).collect();
+                ids.sort_unstable();
+                readers.extend(ids.into_iter().map(|n| (7usize, *w, n)));
+            }
+        }
+        for warm in [&enq[..enq.len() / 2], &enq[..], &readers[..]] {
+            if warm.is_empty() || enq.is_empty() {
                 continue;
             }
             for kind in [SchedulerKind::Radix, SchedulerKind::Legacy] {
